@@ -24,6 +24,9 @@ variable {σ : Type}
 /-- distinct blocks have distinct hashes (collision-freeness of the header hash), over the blocks in play -/
 def HashInj (U : List Block) : Prop := ∀ b ∈ U, ∀ b' ∈ U, b.hash = b'.hash → b = b'
 
+def exEnvC : Env Nat :=
+  { validBody := fun _ s b => some (s + b.hash), certOk := fun _ _ _ c => c.tag == 1 }
+
 /-! ## acceptance is sound -/
 
 theorem validateSubChain_ok {E : Env σ} {R : Rules} {n : Node σ} {h : Nat} {bs : List Bundle}
@@ -370,6 +373,126 @@ theorem adoption_stores_certs (E : Env σ) (g : Block) (s0 : σ) (pre own bs : L
           | some n2 => rw [h2] at hk; simp only at hk ⊢; exact ih n2 hk
     rw [syncFrom_certs E bs n0 _ (key bs n0 hok)]
     exact certsW_mem bs _ b hb hne hu
+
+/-! ## the certificate index after an adoption -/
+
+theorem applyBlocks_ok_sync (E : Env σ) (l : List Bundle) (a : Node σ) (hk : (applyBlocks E fixed a l).2 = .ok) :
+    syncFrom E a l = some (applyBlocks E fixed a l).1 := by
+  induction l generalizing a with
+  | nil => rfl
+  | cons c l ih =>
+    unfold applyBlocks at hk ⊢
+    simp only [syncFrom]
+    cases h1 : addBlock E a c.block with
+    | none => rw [h1] at hk; simp at hk
+    | some n1 =>
+      rw [h1] at hk; simp only at hk ⊢
+      cases h2 : writeCert fixed n1 c with
+      | none => rw [h2] at hk; simp at hk
+      | some n2 => rw [h2] at hk; simp only at hk ⊢; exact ih n2 hk
+
+/-- the certificate index after a completed `applyFork` is the old one plus the non-empty fork certificates -/
+theorem applyFork_ok_certs (E : Env σ) (n : Node σ) (c : Nat) (bs : List Bundle)
+    (h : (applyFork E fixed n c bs).2.1 = .ok) : (applyFork E fixed n c bs).1.certs = certsW bs n.certs := by
+  unfold applyFork at h ⊢
+  cases hr : resetTo n c with
+  | none => rw [hr] at h; simp at h
+  | some r =>
+    obtain ⟨n0, rev⟩ := r
+    rw [hr] at h; simp only at h ⊢
+    rw [syncFrom_certs E bs n0 _ (applyBlocks_ok_sync E bs n0 h)]
+    unfold resetTo at hr
+    cases hv : n.vers c with
+    | none => rw [hv] at hr; cases hr
+    | some s =>
+      rw [hv] at hr; simp only [Option.some.injEq, Prod.mk.injEq] at hr
+      rw [← hr.1]
+
+theorem certsW_congr (bs : List Bundle) (m m' : Nat → Option Cert) (y : Nat) (h : m y = m' y) :
+    certsW bs m y = certsW bs m' y := by
+  induction bs generalizing m m' with
+  | nil => exact h
+  | cons b rest ih =>
+    show certsW rest (if certEmpty b.cert then m else upd m b.block.hash b.cert) y =
+      certsW rest (if certEmpty b.cert then m' else upd m' b.block.hash b.cert) y
+    apply ih
+    split
+    · exact h
+    · simp only [upd]; split
+      · rfl
+      · exact h
+
+theorem certsW_notin (bs : List Bundle) (m : Nat → Option Cert) (y : Nat) (hy : ∀ b ∈ bs, b.block.hash ≠ y) :
+    certsW bs m y = m y := by
+  induction bs generalizing m with
+  | nil => rfl
+  | cons b rest ih =>
+    show certsW rest (if certEmpty b.cert then m else upd m b.block.hash b.cert) y = m y
+    rw [ih _ (fun c hc => hy c (List.mem_cons_of_mem _ hc))]
+    split
+    · rfl
+    · have := hy b (List.mem_cons_self ..)
+      simp [upd]; intro e; exact absurd e.symm this
+
+theorem certsW_nonempty (bs : List Bundle) (m : Nat → Option Cert)
+    (hm : ∀ y c, m y = some c → c.sigs ≠ []) : ∀ y c, certsW bs m y = some c → c.sigs ≠ [] := by
+  induction bs generalizing m with
+  | nil => exact hm
+  | cons b rest ih =>
+    show ∀ y c, certsW rest (if certEmpty b.cert then m else upd m b.block.hash b.cert) y = some c → c.sigs ≠ []
+    apply ih
+    intro y c hc
+    split at hc
+    · exact hm y c hc
+    next hne =>
+      simp only [upd] at hc
+      split at hc
+      · obtain ⟨d, hd, hs⟩ := (certEmpty_false_iff _).1 (by simpa using hne)
+        rw [hd] at hc; injection hc with hc; subst hc; exact hs
+      · exact hm y c hc
+
+/-- **adoption_certs_eq_sync**: after an adoption the certificate index agrees with that of a node that followed
+`pre ++ bs` from genesis at every block hash that is not the hash of an abandoned block (the adopting node keeps the
+certificates it had stored for abandoned blocks; nothing else differs). -/
+theorem adoption_certs_eq_sync (E : Env σ) (g : Block) (s0 : σ) (pre own bs : List Bundle) (n m : Node σ)
+    (hn : syncFrom E (genesisNode g s0) (pre ++ own) = some n)
+    (hm : syncFrom E (genesisNode g s0) (pre ++ bs) = some m)
+    (hok : (applyFork E fixed n (lastBlock g pre).height bs).2.1 = .ok)
+    (y : Nat) (hy : ∀ c ∈ own, c.block.hash ≠ y) :
+    (applyFork E fixed n (lastBlock g pre).height bs).1.certs y = m.certs y := by
+  rw [applyFork_ok_certs E n _ bs hok]
+  rw [syncFrom_append] at hn hm
+  cases hnp : syncFrom E (genesisNode g s0) pre with
+  | none => rw [hnp] at hn; cases hn
+  | some np =>
+    rw [hnp] at hn hm
+    replace hn : syncFrom E np own = some n := hn
+    replace hm : syncFrom E np bs = some m := hm
+    rw [syncFrom_certs E bs np m hm, syncFrom_certs E own np n hn]
+    exact certsW_congr bs _ _ y (certsW_notin own _ y hy)
+
+/-- **adoption_stores_no_empty_cert**: a node that followed its chain from genesis and then adopts a fork never holds
+a certificate record without signatures (an empty non-nil certificate delivered with a fork block leaves no record;
+`ReadBlockForForkedPeer` takes any record for "certified"). -/
+theorem adoption_stores_no_empty_cert (E : Env σ) (g : Block) (s0 : σ) (chain bs : List Bundle) (n : Node σ) (c : Nat)
+    (hn : syncFrom E (genesisNode g s0) chain = some n)
+    (hok : (applyFork E fixed n c bs).2.1 = .ok) :
+    ∀ y d, (applyFork E fixed n c bs).1.certs y = some d → d.sigs ≠ [] := by
+  rw [applyFork_ok_certs E n c bs hok, syncFrom_certs E chain _ n hn]
+  apply certsW_nonempty
+  apply certsW_nonempty
+  intro y d h; simp [genesisNode] at h
+
+/-- flagged witness of the seeded rule `bundle.Cert != nil`: storing every non-nil certificate leaves a record without
+signatures for a fork block delivered with the empty certificate shape -/
+theorem applyFork_nonNil_rule_stores_empty_cert :
+    ∃ (n : Node Nat) (bs : List Bundle), validateSubChain exEnvC fixed n 2 bs = .ok ∧
+      (applyFork exEnvC { fixed with writeEveryCert := true } n 2 bs).1.certs 4 = some ⟨[], 0⟩ ∧
+      (applyFork exEnvC fixed n 2 bs).1.certs 4 = none :=
+  ⟨(syncFrom exEnvC (genesisNode ⟨1, 1, 0, false, false, 0, []⟩ 0)
+      [⟨⟨2, 2, 1, false, false, 5, [10]⟩, none⟩]).getD (genesisNode ⟨1, 1, 0, false, false, 0, []⟩ 0),
+   [⟨⟨4, 3, 2, false, false, 7, []⟩, some ⟨[], 0⟩⟩, ⟨⟨5, 4, 4, false, false, 7, []⟩, some ⟨[1], 1⟩⟩],
+   by decide, by decide, by decide⟩
 
 /-! ## the resolver returns a verdict on every peer answer -/
 
